@@ -3,7 +3,7 @@ from .hist import run_history, U_C
 from .skeletons import UN3
 
 LEVEL = 'model_checking'
-BUDGET_S = {'quick': 120, 'thorough': 1200}
+BUDGET_S = {'quick': 220, 'thorough': 1200}
 BOUNDS = {
     'quick': 'universe U7 + c (cache at c/cache, so the build may create the cache directory); clean after commits, after '
              'rollbacks, after external tampering (files put into created directories, outputs deleted/modified, swaps), '
@@ -19,7 +19,7 @@ def families(tier):
     base = {'cache': 'c/cache', 'universe': U_C}
     q = [
         {'name': 'A5b', 'params': dict(base, hist='BMCB', modes=['ok'], mut_paths=['o/d', 'o/d/z', 'c/z']), 'weight': 4},
-        {'name': 'A5a', 'params': dict(base, hist='BMC', modes=['ok', 'raise_after'], mut_paths=['o', 'o/d/g', 'o/z']), 'weight': 2},
+        {'name': 'A5a', 'params': dict(base, hist='BMC', modes=['ok'], mut_paths=['o', 'o/d/g', 'o/z']), 'weight': 2},
         {'name': 'A3', 'params': dict(base, hist='BFC', kinds=['is_file'], roles=['in/x'], targets=['o/d/g'], modes=['ok']), 'weight': 1},
         {'name': 'A3', 'params': dict(base, hist='CB', kinds=['is_file'], roles=['in/x'], targets=['o/d/g'], modes=['ok']), 'weight': 1},
         {'name': 'A8', 'params': dict(base, hist='BBCB', kinds=['is_dir']), 'weight': 1},
